@@ -1,0 +1,89 @@
+//go:build verif
+
+// Machine-checked contracts for this package (comment-only; compiled only with -tags verif,
+// and even then contributes no code).  Read by /verif/govc; see /verif/DESIGN.md.
+
+package intdataplane
+
+//@ -- ---------------------------------------------------------------- C43: route manager
+//@ spec func rtHas(types proto.RouteType, t proto.RouteType) bool = types & t == t
+
+//@ func isType
+//@   property C43
+//@   requires msg != nil
+//@   ensures res == rtHas(msg.Types, t)
+//@   assigns nothing
+
+//@ func isRemoteTunnelRoute
+//@   property C43
+//@   requires msg != nil
+//@   ensures res == (msg.IpPoolType == ippoolType && rtHas(msg.Types, proto.RouteType_REMOTE_TUNNEL) && rtHas(msg.Types, proto.RouteType_REMOTE_WORKLOAD))
+//@   assigns nothing
+
+//@ func isBorrowedRoute
+//@   property C43
+//@   requires msg != nil
+//@   ensures res == (msg.IpPoolType == ippoolType && rtHas(msg.Types, proto.RouteType_REMOTE_TUNNEL) && msg.Borrowed)
+//@   assigns nothing
+
+//@ -- A route is a local block (gets a blackhole) only if it is a LOCAL_WORKLOAD route of this manager's pool
+//@ -- type, is not a live local workload's own route, parses, and is not a single address (/32 resp. /128).
+//@ spec func rmLocalBlock(poolType proto.IPPoolType, types proto.RouteType, msgPool proto.IPPoolType, localWorkload bool, dst string) bool =
+//@      rtHas(types, proto.RouteType_LOCAL_WORKLOAD) && msgPool == poolType && !localWorkload && cidrParseOK(dst)
+//@      && !hasSuffix(dst, cidrVersion(cidrParse(dst)) == 6 ? "/128" : "/32")
+//@ func (*routeManager).routeIsLocalBlock
+//@   property C43
+//@   requires m != nil && msg != nil
+//@   ensures res == rmLocalBlock(m.ippoolType, msg.Types, msg.IpPoolType, msg.LocalWorkload, msg.Dst)
+//@   assigns nothing
+
+//@ -- Direct (unencapsulated) route exactly when the parent device is known, the pool is unencapsulated or the
+//@ -- route is flagged same-subnet, and the owning node's address is known; its gateway is that node address.
+//@ func (*routeManager).noEncapRoute
+//@   property C43
+//@   requires m != nil && r != nil
+//@   ensures (res != nil) <==> (m.parentDevice != "" && (m.ippoolType == proto.IPPoolType_NO_ENCAP || r.SameSubnet) && r.DstNodeIp != "")
+//@   ensures res != nil ==> fresh(res) && res.Type == routetable.TargetTypeNoEncap && res.RouteKey.CIDR == cidr
+//@                         && res.GW == addrParse(r.DstNodeIp) && res.Protocol == m.routeProtocol
+//@   assigns nothing
+
+//@ spec macro rmMapsOK(m *routeManager) bool = m != nil && m.routesByDest != nil && m.localIPAMBlocks != nil && m.routesByDest != m.localIPAMBlocks
+
+//@ -- deleteRoute forgets dst in both tables and nothing else
+//@ func (*routeManager).deleteRoute
+//@   property C43
+//@   requires rmMapsOK(m)
+//@   ensures forall k string :: ((k in m.routesByDest) <==> (k != dst && old(k in m.routesByDest))) && (k != dst ==> m.routesByDest[k] == old(m.routesByDest[k]))
+//@   ensures forall k string :: ((k in m.localIPAMBlocks) <==> (k != dst && old(k in m.localIPAMBlocks))) && (k != dst ==> m.localIPAMBlocks[k] == old(m.localIPAMBlocks[k]))
+//@   ensures m.routesByDest == old(m.routesByDest) && m.localIPAMBlocks == old(m.localIPAMBlocks) && m.ippoolType == old(m.ippoolType) && m.ipVersion == old(m.ipVersion)
+//@   assigns m.routesDirty, m.routesByDest[*], m.localIPAMBlocks[*]
+
+//@ -- which route updates the manager keeps for programming: remote blocks of its pool type, remote tunnel
+//@ -- endpoints and borrowed addresses
+//@ spec func rmKeepsRoute(poolType proto.IPPoolType, types proto.RouteType, msgPool proto.IPPoolType, borrowed bool) bool =
+//@      msgPool == poolType && (rtHas(types, proto.RouteType_REMOTE_WORKLOAD) || (rtHas(types, proto.RouteType_REMOTE_TUNNEL) && borrowed))
+
+//@ -- Order independence: after a route update for destination d (of this manager's IP version), each table
+//@ -- holds d exactly when the *latest* message says so, mapped to that message, and every other destination
+//@ -- is untouched - so the tables are a function of the last message per destination, whatever the order.
+//@ func (*routeManager).OnUpdate
+//@   property C43
+//@   requires rmMapsOK(m)
+//@   requires istype(protoBufMsg, *proto.RouteUpdate) ==> cast(protoBufMsg, *proto.RouteUpdate) != nil
+//@   requires istype(protoBufMsg, *proto.RouteRemove) ==> cast(protoBufMsg, *proto.RouteRemove) != nil
+//@   option safety off
+//@   ensures m.routesByDest == old(m.routesByDest) && m.localIPAMBlocks == old(m.localIPAMBlocks)
+//@   ensures istype(protoBufMsg, *proto.RouteUpdate) && cidrParseOK(cast(protoBufMsg, *proto.RouteUpdate).Dst)
+//@             && cidrVersion(cidrParse(cast(protoBufMsg, *proto.RouteUpdate).Dst)) == m.ipVersion ==>
+//@           rmAfterUpdateLocal(m, cast(protoBufMsg, *proto.RouteUpdate)) && rmAfterUpdateRoutes(m, cast(protoBufMsg, *proto.RouteUpdate))
+//@   ensures forall k string :: (!istype(protoBufMsg, *proto.RouteUpdate) || k != cast(protoBufMsg, *proto.RouteUpdate).Dst)
+//@             && (!istype(protoBufMsg, *proto.RouteRemove) || k != cast(protoBufMsg, *proto.RouteRemove).Dst) ==>
+//@           ((k in m.localIPAMBlocks) <==> old(k in m.localIPAMBlocks)) && m.localIPAMBlocks[k] == old(m.localIPAMBlocks[k])
+//@           && ((k in m.routesByDest) <==> old(k in m.routesByDest)) && m.routesByDest[k] == old(m.routesByDest[k])
+
+//@ spec macro rmAfterUpdateLocal(m *routeManager, msg *proto.RouteUpdate) bool =
+//@      ((msg.Dst in m.localIPAMBlocks) <==> rmLocalBlock(m.ippoolType, msg.Types, msg.IpPoolType, msg.LocalWorkload, msg.Dst))
+//@      && ((msg.Dst in m.localIPAMBlocks) ==> m.localIPAMBlocks[msg.Dst] == msg)
+//@ spec macro rmAfterUpdateRoutes(m *routeManager, msg *proto.RouteUpdate) bool =
+//@      ((msg.Dst in m.routesByDest) <==> rmKeepsRoute(m.ippoolType, msg.Types, msg.IpPoolType, msg.Borrowed))
+//@      && ((msg.Dst in m.routesByDest) ==> m.routesByDest[msg.Dst] == msg)
